@@ -55,200 +55,182 @@ def run(R, tier):
                 bad[name] = repr(v)
         R.check(not bad, "R16.1", adt_name.split("::")[-1] + "::mask", "mask() = 1 << bit for all 8 bits", "mask() wrong for %s" % bad, where=mb.span)
 
-    # ---- R16.2/R16.3 status byte composition -------------------------------------------------------------
-    def stb_table(body, with_scpi):
-        res = eng.run(body, [RefV(Cell(TOP, "dev"))])
-        rows = []
-        for r in res:
-            p = CB.Path(r)
-            row = {"ret": r.retval.v if isinstance(r.retval, K) else None}
-            row["queue_nonempty"] = None
-            if with_scpi:
-                emp = p.assumed_ret("is_empty", 0)
-                row["queue_nonempty"] = (not emp) if emp is not None else None
-                # register summaries by generic argument
-                gs = [e for e in p.calls if e.name.endswith("get_register_summary")]
-                asum = [e for e in r.trace if e.kind == "assume" and e.name == "sym" and isinstance(e.args[0][2], tuple) and e.args[0][2][0] == "ret" and e.args[0][2][1].endswith("get_register_summary")]
-                for g, a in zip(gs, asum):
-                    ga = (g.extra or {}).get("gargs") or ()
-                    if QUES in ga:
-                        row["ques"] = a.args[1]
-                    if OPER in ga:
-                        row["oper"] = a.args[1]
-            # esb condition and mss condition
-            for e in r.trace:
-                if e.kind == "assume" and e.name == "sym" and isinstance(e.args[0][2], tuple) and e.args[0][2][0] == "binop" and e.args[0][2][1] == "Ne":
-                    a, b_ = e.args[0][2][2], e.args[0][2][3]
-                    if b_ != ("K", 0):
-                        continue
-                    bo = CB.binop_of(a, "BitAnd")
-                    if bo is None:
-                        continue
-                    if {CB.ret_of(bo[0], "esr"), CB.ret_of(bo[1], "ese")} == {True} or (CB.ret_of(bo[0], "ese") and CB.ret_of(bo[1], "esr")):
-                        row["esb"] = e.args[1]
-                    elif (bo[0][0] == "K" and CB.ret_of(bo[1], "sre")) or (bo[1][0] == "K" and CB.ret_of(bo[0], "sre")):
-                        row["mss"] = e.args[1]
-                        row["mss_over"] = bo[0][1] if bo[0][0] == "K" else bo[1][1]
-            row["writes"] = [n for n in p.names if n.startswith("set_") or n in ("push_back_error", "pop_front_error", "clear_errors", "register_mut", "get_register_mut")]
-            rows.append(row)
-        return rows
+    # ---- R16.2 - R16.6 on the abstract device (sa/rules/devmodel.py) ----------------------------------------------------
+    from . import devmodel as DM
+    deng = DM.engine()
+    EC = "scpi::error::ErrorCode"
+    ecodes = {v: k for k, v in (deng.enum_tables.get(EC) or {}).items()}
+    thorough = tier == "thorough"
 
-    b = uc.body("scpi_contrib::scpi1999::ScpiDevice::scpi_stb")
-    rows = stb_table(b, True)
-    R.count("scpi_stb_paths", len(rows))
+    def spec_stb(esr, ese, sre, queue_nonempty, ques, oper, mav):
+        stb = (4 if queue_nonempty else 0) | (8 if ques else 0) | (0x80 if oper else 0) | (0x10 if mav else 0) | (0x20 if esr & ese else 0)
+        if stb & sre & 0xBF:
+            stb |= 0x40
+        return stb
+
+    def fresh_dev(esr=0, ese=0, sre=0, nq=0, ques=False, oper=False, tst=None, extra_reg=None):
+        # a register's summary is true when an enabled condition bit is set (bit 15 never counts)
+        regs = {"Operation": DM.mk_register(uc, condition=0x0100 if oper else 0x8001, enable=0x0100 if oper else 0x8000, event=0x0033),
+                "Questionable": DM.mk_register(uc, condition=0x0002 if ques else 0x7FF0, enable=0x0002 if ques else 0x800F, event=0x4400)}
+        if extra_reg:
+            regs.update(extra_reg)
+        return DM.Dev(esr=esr, ese=ese, sre=sre, queue=[SymV("e%d" % i, "e%d" % i) for i in range(nq)], regs=regs, tst=tst)
+
+    def state_of(d):
+        return (dict(d.r8), [getattr(x, "id", repr(x)) for x in d.queue], {k: DM.reg_values(uc, c_) for k, c_ in d.regs.items()})
+
+    singles = [1 << k for k in range(8)]
+    pairs = [(0, 0), (0xFF, 0), (0, 0xFF), (0xFF, 0xFF), (0x55, 0xAA), (0xAA, 0x55)] + [(s_, s_) for s_ in singles] + ([(s_, 0xFF ^ s_) for s_ in singles] if thorough else [(0x20, 0xDF), (0x01, 0xFE)])
+    sres = [0, 0xFF, 0x40, 0xBF] + singles
+    n_stb = 0
+
+    # *STB? (documented wiring: IEEE4882::stb -> scpi_stb)
+    hb = handler(uc, "StbCommand", "query")
     bad = []
-    for row in rows:
-        need = ("queue_nonempty", "ques", "oper", "esb", "mss")
-        if any(row.get(k) is None for k in need) or row["ret"] is None:
-            bad.append(("undecided", row))
-            continue
-        exp = (4 if row["queue_nonempty"] else 0) | (8 if row["ques"] else 0) | (128 if row["oper"] else 0) | (32 if row["esb"] else 0)
-        if row["mss_over"] != exp:
-            bad.append(("MSS computed over 0x%02x, reported summary bits are 0x%02x" % (row["mss_over"], exp), row))
-        exp |= 64 if row["mss"] else 0
-        if row["ret"] != exp:
-            bad.append(("returns 0x%02x, expected 0x%02x" % (row["ret"], exp), row))
-        if row["writes"]:
-            bad.append(("writes status", row))
-    R.check(len(rows) == 32 and not bad, "R16.2", "scpi_stb", "32 combinations: bit2=queue non-empty, bit3=QUES summary, bit7=OPER summary, bit5=ESR&ESE!=0, bit6 last over all of them & SRE; no write", "scpi_stb composes the status byte wrongly: %s" % (bad[:3],), where=b.span)
-    b = uc.body("scpi_contrib::ieee488::IEEE4882::stb")
-    rows = stb_table(b, False)
-    bad = []
-    for row in rows:
-        if row.get("esb") is None or row.get("mss") is None or row["ret"] is None:
-            bad.append(("undecided", row))
-            continue
-        exp = 32 if row["esb"] else 0
-        if row["mss_over"] != exp:
-            bad.append(("MSS over 0x%02x" % row["mss_over"], row))
-        exp |= 64 if row["mss"] else 0
-        if row["ret"] != exp or row["writes"]:
-            bad.append(("returns %r expected 0x%02x" % (row["ret"], exp), row))
-    R.check(len(rows) == 4 and not bad, "R16.2", "IEEE4882::stb", "bit5 = ESR&ESE!=0, bit6 = that & SRE", "default IEEE4882::stb composes the status byte wrongly: %s" % (bad[:2],), where=b.span)
-    # get_register_summary / get_summary plumbing
-    b = uc.body("scpi_contrib::scpi1999::ScpiDevice::get_register_summary")
-    calls = [c.name.split("::")[-1] for c in b.calls()]
-    R.check(calls == ["register", "get_summary"], "R16.2", "get_register_summary", "register().get_summary() (read-only)", "get_register_summary must be register().get_summary(): %s" % calls, where=b.span)
+    for (esr, ese) in pairs:
+        for sre in sres:
+            for flags in range(16):
+                nq, ques, oper, mav = flags & 1, bool(flags & 2), bool(flags & 4), bool(flags & 8)
+                if not thorough and (esr, ese) not in pairs[:6] and flags not in (0, 5, 10, 15):
+                    continue
+                n_stb += 1
+                dev = fresh_dev(esr, ese, sre, nq, ques, oper)
+                before = state_of(dev)
+                rs = DM.run(deng, hb, dev, DM.handler_args(mav=mav))
+                exp = spec_stb(esr, ese, sre, nq, ques, oper, mav)
+                ok = len(rs) == 1 and rs[0][0].outcome == "return" and M.outcome(rs[0][0]) in ("Ok", "ret:finish")
+                if ok:
+                    d = rs[0][1]
+                    ok = len(d.data) == 1 and isinstance(d.data[0], K) and d.data[0].v == exp and d.finished == 1 and state_of(d) == before
+                if not ok and len(bad) < 4:
+                    bad.append("ESR=%#04x ESE=%#04x SRE=%#04x queue=%d QUES=%s OPER=%s MAV=%s: answers %s (state changed: %s), expected %#04x" % (esr, ese, sre, nq, ques, oper, mav, [(r.outcome, d.data) for r, d in rs], [state_of(d) != before for r, d in rs], exp))
+    R.check(not bad, "R16.3", "*STB?", "bit2 queue non-empty, bit3/bit7 QUES/OPER summary, bit4 message available, bit5 ESR&ESE, bit6 any of those enabled in SRE; nothing is modified (%d register/flag combinations)" % n_stb, "; ".join(bad), where=hb.span)
+    R.count("stb_evaluations", n_stb)
+
+    # the status byte functions themselves (no message-available input)
+    for fn, uses_scpi in (("scpi_contrib::scpi1999::ScpiDevice::scpi_stb", True), ("scpi_contrib::ieee488::IEEE4882::stb", False)):
+        b = uc.body(fn)
+        e2 = deng if uses_scpi else DM.engine(wire_stb=False)
+        bad = []
+        n = 0
+        for (esr, ese) in pairs:
+            for sre in sres:
+                for flags in (range(8) if uses_scpi else (0,)):
+                    nq, ques, oper = flags & 1, bool(flags & 2), bool(flags & 4)
+                    if not thorough and (esr, ese) not in pairs[:6] and flags not in (0, 7):
+                        continue
+                    n += 1
+                    dev = fresh_dev(esr, ese, sre, nq, ques, oper)
+                    before = state_of(dev)
+                    rs = DM.run(e2, b, dev, [RefV(Cell(SymV("device", "device"), "dev"))])
+                    exp = spec_stb(esr, ese, sre, nq if uses_scpi else 0, ques if uses_scpi else False, oper if uses_scpi else False, False)
+                    ok = len(rs) == 1 and isinstance(rs[0][0].retval, K) and rs[0][0].retval.v == exp and state_of(rs[0][1]) == before
+                    if not ok and len(bad) < 3:
+                        bad.append("ESR=%#04x ESE=%#04x SRE=%#04x queue=%d QUES=%s OPER=%s: %s, expected %#04x" % (esr, ese, sre, nq, ques, oper, [(r.outcome, r.retval) for r, d in rs], exp))
+        R.check(not bad, "R16.2", fn.split("::")[-1] if uses_scpi else "IEEE4882::stb", ("bit2/3/7/5 from queue, QUES, OPER, ESR&ESE; " if uses_scpi else "bit5 from ESR&ESE; ") + "bit6 from those & SRE; read-only (%d combinations)" % n, "; ".join(bad), where=b.span)
+    # summary of a register set: an enabled condition bit (bits 0..14)
     b = uc.body("scpi_contrib::scpi1999::EventRegister::get_summary")
-    R.check(not CB.stores_to_fields(b, {"condition", "event", "enable", "ntr_filter", "ptr_filter"}) and not list(b.calls()), "R16.2", "get_summary:pure", "reads only", "get_summary must not modify the register", where=b.span)
+    bad = []
+    for cond, en in ((0, 0), (0xFFFF, 0), (0, 0xFFFF), (0x8000, 0x8000), (0x8000, 0xFFFF), (0xFFFF, 0x8000), (1, 1), (0x4000, 0x4000), (0x0100, 0x0200), (0x7FFF, 0x7FFF), (0x5555, 0xAAAA)):
+        cell = DM.mk_register(uc, condition=cond, enable=en, event=0xFFFF)
+        rs = DM.run(deng, b, DM.Dev(), [RefV(cell)])
+        exp = (cond & en & 0x7FFF) != 0
+        if not (len(rs) == 1 and isinstance(rs[0][0].retval, K) and rs[0][0].retval.v is exp and DM.reg_values(uc, cell) == {"condition": cond, "enable": en, "event": 0xFFFF, "ntr_filter": 0, "ptr_filter": 0}):
+            bad.append("condition=%#06x enable=%#06x: %s, expected %s" % (cond, en, [(r.outcome, r.retval) for r, _ in rs], exp))
+    R.check(not bad, "R16.2", "get_summary", "true iff an enabled condition bit among bits 0..14 is set; read-only", "; ".join(bad[:3]), where=b.span)
 
-    # ---- R16.3 *STB? ----------------------------------------------------------------------------------------------
-    b = handler(uc, "StbCommand", "query")
-    ctx_fields = [f["name"] for f in P.unit("scpi").adts["scpi::Context"]["variants"][0]["fields"]]
-    tab = {}
-    for mav in (True, False):
-        ctx = AggV("scpi::Context", {i: (K(mav) if n == "mav" else TOP) for i, n in enumerate(ctx_fields)})
-        ps = run_handler(eng, b, True, ctx)
-        for p in ps:
-            d = p.call("data")
-            if d is None or p.names[-1] != "finish" or p.outcome != "ret:finish" or p.count("stb") != 1:
-                tab[(mav, "?")] = "no data/finish: %s" % p.describe()
+    # ---- R16.5 *CLS: clears ESR, both event registers and the queue; enables, filters, conditions, SRE/ESE untouched ----
+    hb = handler(uc, "ClsCommand", "event")
+    bad = []
+    for esr, ese, sre, nq in ((0xFF, 0x5A, 0xA5, 3), (0, 0, 0, 0), (0x01, 0xFF, 0xFF, 1)):
+        dev = fresh_dev(esr, ese, sre, nq, True, True)
+        before = state_of(dev)
+        rs = DM.run(deng, hb, dev, DM.handler_args(event=True))
+        exp_regs = {k: dict(v, event=0) for k, v in before[2].items()}
+        ok = len(rs) == 1 and M.outcome(rs[0][0]) == "Ok" and state_of(rs[0][1]) == ({"esr": 0, "ese": ese, "sre": sre}, [], exp_regs)
+        if not ok:
+            bad.append("from ESR=%#04x ESE=%#04x SRE=%#04x, %d queued: %s" % (esr, ese, sre, nq, [(M.outcome(r), state_of(d)) for r, d in rs]))
+    R.check(not bad, "R16.5", "*CLS", "ESR := 0, OPERation and QUEStionable event registers := 0, queue emptied; enable/filter/condition registers, ESE and SRE unchanged", "; ".join(bad[:2])[:900], where=hb.span)
+
+    # ---- R16.6 the other common commands ------------------------------------------------------------------------------------------
+    def effect(tname, meth, dev, params=(), mav=None):
+        hb_ = handler(uc, tname, meth)
+        dev.params = list(params)
+        before = state_of(dev)
+        rs = DM.run(deng, hb_, dev, DM.handler_args(mav=mav, event=(meth == "event")))
+        return hb_, before, rs
+
+    # *RST / *WAI alter no status register
+    for tname in ("RstCommand", "WaiCommand"):
+        hb_, before, rs = effect(tname, "event", fresh_dev(0x3C, 0xC3, 0x99, 2, True, False))
+        ok = len(rs) == 1 and M.outcome(rs[0][0]) == "Ok" and state_of(rs[0][1]) == before and not rs[0][1].data
+        R.check(ok, "R16.6", "*%s" % tname.replace("Command", "").upper(), "no status register, queue or event register is altered", "*%s changes the status state: %s -> %s" % (tname.replace("Command", "").upper(), before, [(M.outcome(r), state_of(d)) for r, d in rs]), where=hb_.span)
+    # *OPC sets the operation-complete bit (and records the event), *OPC? answers 1
+    bad = []
+    for esr in (0x00, 0x80, 0xFE, 0xFF):
+        hb_, before, rs = effect("OpcCommand", "event", fresh_dev(esr, 0x11, 0x22, 1))
+        ok = len(rs) == 1 and M.outcome(rs[0][0]) == "Ok"
+        if ok:
+            d = rs[0][1]
+            ok = d.r8 == {"esr": esr | 0x01, "ese": 0x11, "sre": 0x22} and len(d.queue) == 2 and "OperationComplete" in M.err_codes(d.queue[-1]) and state_of(d)[2] == before[2]
+        if not ok:
+            bad.append("ESR=%#04x: %s" % (esr, [(M.outcome(r), d.r8, d.queue) for r, d in rs]))
+    R.check(not bad, "R16.6", "*OPC", "ESR |= bit 0 (operation complete), one -800 event appended, nothing else changed", "; ".join(bad[:2]), where=hb_.span)
+    hb_, before, rs = effect("OpcCommand", "query", fresh_dev(0x10, 0x20, 0x30, 1))
+    ok = len(rs) == 1 and M.outcome(rs[0][0]) in ("Ok", "ret:finish") and len(rs[0][1].data) == 1 and isinstance(rs[0][1].data[0], K) and rs[0][1].data[0].v in (True, 1) and state_of(rs[0][1]) == before
+    R.check(ok, "R16.6", "*OPC?", "answers 1, changes nothing", "*OPC? answers %s" % [(M.outcome(r), d.data) for r, d in rs], where=hb_.span)
+    # *TST? answers 0 or the self-test error code
+    bad = []
+    for tst, exp in ((None, 0), ("HardwareError", None), ("SelfTestFailed", None), ("DeviceSpecificError", None)):
+        errv = None
+        if tst is not None:
+            if tst not in ecodes:
                 continue
-            # collect constants OR-ed onto the device's status byte
-            consts, base_ok = _or_consts(d.args[1])
-            cond = None
-            for e in p.r.trace:
-                if e.kind == "assume" and e.name == "sym" and isinstance(e.args[0][2], tuple) and e.args[0][2][0] == "binop" and e.args[0][2][1] == "Ne":
-                    bo = CB.binop_of(e.args[0][2][2], "BitAnd")
-                    if bo is not None and (CB.ret_of(bo[0], "sre") or CB.ret_of(bo[1], "sre")):
-                        other = bo[1] if CB.ret_of(bo[0], "sre") else bo[0]
-                        over_ok = other == ("K", 16) or ("stb" in repr(other) and "('K', 16)" in repr(other))
-                        cond = (e.args[1], over_ok)
-            writes = [n for n in p.names if n.startswith("set_") or n in ("push_back_error", "pop_front_error", "clear_errors", "register_mut", "get_register_mut", "replace")]
-            tab[(mav, cond[0] if cond else None)] = (sorted(consts), base_ok, cond[1] if cond else True, writes)
-    exp = {(False, None): ([], True, True, []), (True, True): ([16, 64], True, True, []), (True, False): ([16], True, True, [])}
-    R.check(tab == exp, "R16.3", "*STB?", "reports device.stb() | MAV(bit 4) and raises bit 6 when MAV is enabled in SRE; reads only", "*STB? must OR message-available (bit 4) into the status byte and account for it in bit 6 (MSS) via SRE bit 4, without writing anything: %s" % tab, where=b.span)
-
-    # ---- R16.5 *CLS ---------------------------------------------------------------------------------------------------
-    b = uc.body("scpi_contrib::scpi1999::ScpiDevice::scpi_cls")
-    ps = [CB.Path(r) for r in eng.run(b, [RefV(Cell(TOP, "dev"), (), True)])]
-    ok = len(ps) == 1
-    if ok:
-        p = ps[0]
-        se = p.call("set_esr")
-        regs = sorted(tuple(((e.extra or {}).get("gargs") or ())[1:2]) for e in p.calls if e.name.endswith("get_register_mut"))
-        ok = se is not None and se.args[1] == ("K", 0) and p.count("set_esr") == 1 and p.count("clear_event") == 2 and p.count("clear_errors") == 1 and regs == [(OPER,), (QUES,)]
-        forbidden = [n for n in p.names if n in ("set_ese", "set_sre", "preset", "preset_register", "set_condition")]
-        ok = ok and not forbidden and M.outcome(p.r) == "Ok"
-    R.check(ok, "R16.5", "*CLS", "set_esr(0); clear_event on OPERation and QUEStionable; clear_errors(); no enable register touched", "*CLS must clear ESR, both event registers and the error queue and nothing else: %s" % [p.describe() for p in ps], where=b.span)
-    for tname, meth, callee in (("ClsCommand", "event", "cls"), ("OpcCommand", "event", "opc"), ("RstCommand", "event", "rst")):
-        hb = handler(uc, tname, meth)
-        ps = run_handler(eng, hb, False)
-        ok = len(ps) == 1 and ps[0].names == [callee] and ps[0].outcome == "ret:" + callee
-        R.check(ok, "R16.6", "*%s" % tname.replace("Command", "").upper(), "device.%s() and nothing else" % callee, "*%s must only call device.%s(): %s" % (tname.replace("Command", "").upper(), callee, [p.describe() for p in ps]), where=hb.span)
-    hb = handler(uc, "WaiCommand", "event")
-    ps = run_handler(eng, hb, False)
-    R.check(len(ps) == 1 and not ps[0].calls and M.outcome(ps[0].r) == "Ok", "R16.6", "*WAI", "no effect", "*WAI must not touch anything: %s" % [p.describe() for p in ps], where=hb.span)
-    hb = handler(uc, "OpcCommand", "query")
-    ps = run_handler(eng, hb, True)
-    ok = len(ps) == 1 and ps[0].names == ["data", "finish"] and ps[0].call("data").args[1] == ("K", True) and ps[0].outcome == "ret:finish"
-    R.check(ok, "R16.6", "*OPC?", "answers 1", "*OPC? must answer 1 (true) and do nothing else: %s" % [p.describe() for p in ps], where=hb.span)
-    # *TST?
-    hb = handler(uc, "TstCommand", "query")
-    ps = run_handler(eng, hb, True)
-    kinds = {}
-    good = bool(ps)
-    for p in ps:
-        d = p.call("data")
-        if d is None or p.names[-1] != "finish" or p.outcome != "ret:finish" or p.count("tst") != 1:
-            good = False
-            continue
-        v = p.assumed_variant("tst", 0)
-        if v == "Ok":
-            kinds["ok"] = d.args[1]
-        elif v == "Err":
-            kinds["err"] = d.args[1]
-            good = good and p.count("get_code") == 1 and CB.ret_of(d.args[1], "get_code")
-    good = good and kinds.get("ok") == ("K", 0) and "err" in kinds
-    R.check(good, "R16.6", "*TST?", "answers 0 on success, the error's code on a self-test fault (the query itself succeeds)", "*TST? must answer 0 or the self-test error code as response data: %s" % [p.describe() for p in ps], where=hb.span)
-    # *ESE / *SRE
-    for tname, setter, getter in (("EseCommand", "set_ese", "ese"), ("SreCommand", "set_sre", "sre")):
-        hb = handler(uc, tname, "event")
-        gar = [c.gargs() for c in hb.calls() if c.name.endswith("next_data")]
-        ps = run_handler(eng, hb, False)
-        good = bool(ps) and gar and gar[0][-1] == "u8"
-        for p in ps:
-            v = p.assumed_variant("next_data", 0)
-            if v == "Ok":
-                s_ = p.call(setter)
-                good = good and s_ is not None and "next_data" in repr(s_.args[1]) and [n for n in p.names if n.startswith("set_")] == [setter] and M.outcome(p.r) == "Ok"
-            elif v == "Err":
-                good = good and not [n for n in p.names if n.startswith("set_")] and p.outcome.startswith("Err(")
+            errv = AggV("scpi::error::Error", {0: EnumV(EC, tst, ecodes[tst], {}), 1: fdai.mk_option(None)})
+        hb_, before, rs = effect("TstCommand", "query", fresh_dev(0x10, 0x20, 0x30, 1, tst=errv))
+        ok = len(rs) == 1 and M.outcome(rs[0][0]) in ("Ok", "ret:finish") and len(rs[0][1].data) == 1 and isinstance(rs[0][1].data[0], K) and state_of(rs[0][1]) == before
+        if ok:
+            got = rs[0][1].data[0].v
+            if tst is None:
+                ok = got == 0
             else:
-                good = False
-        R.check(good, "R16.6", "*%s <value>" % tname.replace("Command", "").upper(), "u8 parameter (0..255, else the conversion's -222) stored with %s" % setter, "*%s must take a u8 and store it with %s: %s" % (tname.replace("Command", "").upper(), setter, [p.describe() for p in ps]), where=hb.span)
-        hb = handler(uc, tname, "query")
-        ps = run_handler(eng, hb, True)
-        ok = len(ps) == 1 and ps[0].names == [getter, "data", "finish"] and CB.ret_of(ps[0].call("data").args[1], getter) and ps[0].outcome == "ret:finish"
-        R.check(ok, "R16.6", "*%s?" % tname.replace("Command", "").upper(), "answers %s()" % getter, "*%s? must answer %s(): %s" % (tname.replace("Command", "").upper(), getter, [p.describe() for p in ps]), where=hb.span)
-    # *OPC sets the operation-complete bit (bit 0 by C14's class table)
-    b = uc.body("scpi_contrib::scpi1999::ScpiDevice::scpi_opc")
-    eng_i = CB.engine("scpi_contrib", inline=lambda n, r: r.endswith("Error::new") or "From<scpi::error::ErrorCode>>::from" in r)
-    ps = [CB.Path(r) for r in eng_i.run(b, [RefV(Cell(TOP, "dev"), (), True)])]
-    ok = len(ps) == 1
-    if ok:
-        se = ps[0].call("set_esr")
-        em = ps[0].call("esr_mask")
-        bo = CB.binop_of(se.args[1], "BitOr") if se else None
-        ok = bo is not None and em is not None and "OperationComplete" in repr(em.args[0]) and any(CB.ret_of(x, "esr") for x in bo) and any(CB.ret_of(x, "esr_mask") for x in bo)
-    R.check(ok, "R16.6", "*OPC", "ESR |= class bit of OperationComplete (-800 -> bit 0)", "*OPC must OR the operation-complete bit into ESR: %s" % [p.describe() for p in ps], where=b.span)
+                ok = isinstance(got, int) and got != 0 and got == _code_of(tst)
+        if not ok:
+            bad.append("self-test %s: %s" % (tst or "passes", [(M.outcome(r), d.data) for r, d in rs]))
+    R.check(not bad, "R16.6", "*TST?", "answers 0 when the self-test passes and the error's code when it fails (the query itself succeeds)", "; ".join(bad[:2]), where=hb_.span)
+    # *ESE / *SRE: store the u8 parameter, read it back, nothing else changes
+    for tname, reg in (("EseCommand", "ese"), ("SreCommand", "sre")):
+        hb_ = handler(uc, tname, "event")
+        gar = [c.gargs() for c in hb_.calls() if c.name.endswith("next_data")]
+        bad = [] if (gar and gar[0][-1] == "u8") else ["the parameter is not read as a u8 (0..255): %s" % gar]
+        for v in (0, 1, 0x80, 0xFF, 0x5A):
+            hb_, before, rs = effect(tname, "event", fresh_dev(0x12, 0x34, 0x56, 1), params=[v])
+            exp = dict(before[0])
+            exp[reg] = v
+            ok = len(rs) == 1 and M.outcome(rs[0][0]) == "Ok" and state_of(rs[0][1]) == (exp, before[1], before[2])
+            if not ok:
+                bad.append("value %d: %s" % (v, [(M.outcome(r), d.r8) for r, d in rs]))
+        # a failing conversion (e.g. 256 -> -222) leaves the register alone and is the unit's error
+        hb_, before, rs = effect(tname, "event", fresh_dev(0x12, 0x34, 0x56, 1), params=[("err", SymV("conversion-error", "conversion-error"))])
+        ok = len(rs) == 1 and M.outcome(rs[0][0]).startswith("Err(") and state_of(rs[0][1]) == before
+        if not ok:
+            bad.append("conversion error: %s" % [(M.outcome(r), d.r8) for r, d in rs])
+        R.check(not bad, "R16.6", "*%s <value>" % tname.replace("Command", "").upper(), "a u8 parameter is stored in %s and nothing else changes; a conversion error changes nothing" % reg.upper(), "; ".join(bad[:3]), where=hb_.span)
+        bad = []
+        for v in (0, 0xFF, 0xA5):
+            dev = fresh_dev(0x12, 0x34, 0x56, 1)
+            dev.r8[reg] = v
+            hb_, before, rs = effect(tname, "query", dev)
+            ok = len(rs) == 1 and M.outcome(rs[0][0]) in ("Ok", "ret:finish") and len(rs[0][1].data) == 1 and isinstance(rs[0][1].data[0], K) and rs[0][1].data[0].v == v and state_of(rs[0][1]) == before
+            if not ok:
+                bad.append("%s=%#04x: %s" % (reg, v, [(M.outcome(r), d.data) for r, d in rs]))
+        R.check(not bad, "R16.6", "*%s?" % tname.replace("Command", "").upper(), "answers the stored value, changes nothing", "; ".join(bad[:2]), where=hb_.span)
 
 
-def _or_consts(snap):
-    """snapshot of stb | c1 | c2 ...: returns (constants, base is device.stb())"""
-    consts = []
-    cur = snap
-    while True:
-        bo = CB.binop_of(cur, "BitOr")
-        if bo is None:
-            break
-        a, b_ = bo
-        if b_[0] == "K":
-            consts.append(b_[1])
-            cur = a
-        elif a[0] == "K":
-            consts.append(a[1])
-            cur = b_
-        else:
-            return consts, False
-    return consts, CB.ret_of(cur, "stb")
+def _code_of(variant):
+    import json, os
+    from ..report import VERIF
+    for e in json.load(open(os.path.join(VERIF, "oracle", "errors.json")))["errors"]:
+        if e["variant"] == variant:
+            return int(e["code"])
+    return None
